@@ -40,6 +40,10 @@ import (
 //   reconnect recw=<n>                                 chain.ClientConnected again on the RUNNING wallet: syncWithChain runs once
 //                                                      more (rollback loop, recovery, rescan); its rescan is held in flight
 //   importkey k=<n> from=<h>                           ImportPrivateKey(rescan=true) from best-chain height h; rescan held in flight
+//   gettxs from=<h|-1> to=<h|-1>                       Wallet.GetTransactions(height from, height to) on the running wallet
+//                                                      (-1 = mempool height; from > to walks backwards): reply
+//                                                      `gettxs mined=<height>:<tx>+<tx>/... unmined=<tx>+...` (blocks in the
+//                                                      order reported, transactions of a block ascending) + the C13 oracle
 //   rfin                                               the backend reports the held rescan finished (RescanFinished for the tip
 //                                                      at the time of the request); every notification op may run in between
 //
@@ -775,6 +779,13 @@ func (r *syncRunner) exec1(op string) (string, string) {
 		return r.state(), r.oracle("startup-block-during-rescan")
 	case "state":
 		return r.state(), ""
+	case "gettxs":
+		from, err1 := strconv.Atoi(kv["from"])
+		to, err2 := strconv.Atoi(kv["to"])
+		if !r.env.running || err1 != nil || err2 != nil || from < -1 || to < -1 {
+			return "bad-op", ""
+		}
+		return r.getTxs(int32(from), int32(to))
 	case "hashes":
 		if !r.env.running {
 			return "bad-op", ""
@@ -1106,6 +1117,180 @@ func (r *syncRunner) oracleC02(ctx string) string {
 	return strings.Join(v, "; ")
 }
 
+// getTxs runs Wallet.GetTransactions over the height range and evaluates C13's wallet-level sentence on the answer
+// against the ground truth of the fake backend (no model): every wallet transaction that was delivered to the wallet is
+// reported EXACTLY ONCE — under the best-chain block that confirms it when that block's height is in the range, as
+// unconfirmed when no best-chain block holds it (and the range includes the mempool height), and nowhere else:
+//   - GetTransactions.missing         a transaction confirmed in range (or unconfirmed, range incl. -1) is not reported
+//   - GetTransactions.reported-twice  a transaction occurs more than once in the answer (under two blocks, twice in one
+//                                     block, or mined and unmined)
+//   - GetTransactions.wrong-block     a transaction is reported under a block (height, hash) that does not confirm it on
+//                                     the best chain / as unmined although confirmed / although out of range
+//   - GetTransactions.summary-tx-differs-from-hash   TransactionSummary.Tx does not hash to TransactionSummary.Hash
+//   - GetTransactions.block-order     the blocks are not reported ascending (from < to) / descending (otherwise)
+// The ground truth and the windows in which it is unambiguous are those of oracleC02.
+func (r *syncRunner) getTxs(from, to int32) (string, string) {
+	w := r.env.w
+	res, err := w.GetTransactions(wallet.NewBlockIdentifierFromHeight(from), wallet.NewBlockIdentifierFromHeight(to), "", nil)
+	if err != nil {
+		return "err gettxs", fmt.Sprintf("C13 key=GetTransactions.error: GetTransactions(%d, %d): %v", from, to, err)
+	}
+	idOf := func(h *chainhash.Hash) int {
+		if h != nil {
+			if id, ok := r.txID[*h]; ok {
+				return id
+			}
+		}
+		return -1
+	}
+	type rep struct {
+		height int32 // -1 = unmined
+		hash   chainhash.Hash
+	}
+	reported := map[int][]rep{}
+	var v []string
+	add := func(key, f string, a ...interface{}) {
+		if len(v) < 4 {
+			v = append(v, fmt.Sprintf("C13 key=GetTransactions.%s: GetTransactions(%d, %d): ", key, from, to)+fmt.Sprintf(f, a...))
+		}
+	}
+	sumOK := func(s *wallet.TransactionSummary, where string) {
+		if s.Hash == nil || s.Tx == nil || s.Tx.TxHash() != *s.Hash {
+			add("summary-tx-differs-from-hash", "%s: the summary's transaction does not hash to the summary's hash", where)
+		}
+	}
+	var ms []string
+	for _, b := range res.MinedTransactions {
+		var ids []int
+		for i := range b.Transactions {
+			s := &b.Transactions[i]
+			id := idOf(s.Hash)
+			ids = append(ids, id)
+			var bh chainhash.Hash
+			if b.Hash != nil {
+				bh = *b.Hash
+			}
+			reported[id] = append(reported[id], rep{b.Height, bh})
+			sumOK(s, fmt.Sprintf("block at height %d", b.Height))
+		}
+		sort.Ints(ids)
+		var ss []string
+		for _, id := range ids {
+			ss = append(ss, strconv.Itoa(id))
+		}
+		ms = append(ms, fmt.Sprintf("%d:%s", b.Height, strings.Join(ss, "+")))
+	}
+	var uids []int
+	for i := range res.UnminedTransactions {
+		s := &res.UnminedTransactions[i]
+		id := idOf(s.Hash)
+		uids = append(uids, id)
+		reported[id] = append(reported[id], rep{height: -1})
+		sumOK(s, "unmined")
+	}
+	sort.Ints(uids)
+	var us []string
+	for _, id := range uids {
+		us = append(us, strconv.Itoa(id))
+	}
+	reply := fmt.Sprintf("gettxs mined=%s unmined=%s", strings.Join(ms, "/"), strings.Join(us, "+"))
+
+	// the oracle's windows: as for oracle / oracleC02
+	if r.raceTaint || !r.connected || r.malformed || r.broken || r.recoveryTaint || !w.ChainSynced() ||
+		(r.inflight != "" && r.missed) {
+		return reply, ""
+	}
+	bound := func(x int32) int32 {
+		if x < 0 {
+			return math.MaxInt32
+		}
+		return x
+	}
+	lo, hi, forward := bound(from), bound(to), bound(from) < bound(to)
+	if lo > hi {
+		lo, hi = hi, lo
+	}
+	withUnmined := from < 0 || to < 0
+	dir := "forwards"
+	if !forward {
+		dir = "backwards"
+	}
+	for i := 1; i < len(res.MinedTransactions); i++ {
+		a, b := res.MinedTransactions[i-1].Height, res.MinedTransactions[i].Height
+		if (forward && a >= b) || (!forward && a <= b) {
+			add("block-order", "walking %s, block at height %d is reported before the block at height %d", dir, a, b)
+			break
+		}
+	}
+	onBest := map[int]*fblock{}
+	all := map[int]txSpec{}
+	for id, spec := range r.seen {
+		all[id] = spec
+	}
+	for h := int32(1); ; h++ {
+		b := r.env.fc.at(h)
+		if b == nil {
+			break
+		}
+		for _, spec := range r.blkTxs[b.id] {
+			onBest[spec.id] = b
+			all[spec.id] = spec
+		}
+	}
+	ids := make([]int, 0, len(all))
+	for id := range all {
+		ids = append(ids, id)
+	}
+	sort.Ints(ids)
+	where := func(x rep) string {
+		if x.height == -1 {
+			return "as unmined"
+		}
+		return fmt.Sprintf("under block %s at height %d", r.env.fc.idOf(x.hash), x.height)
+	}
+	for _, id := range ids {
+		reps := reported[id]
+		b := onBest[id]
+		if len(reps) > 1 {
+			var ws []string
+			for _, x := range reps {
+				ws = append(ws, where(x))
+			}
+			add("reported-twice", "walking %s, tx %d is reported %d times (%s), want exactly once", dir, id, len(reps), strings.Join(ws, ", "))
+			continue
+		}
+		switch {
+		case b != nil && b.height >= lo && b.height <= hi:
+			if len(reps) == 0 {
+				add("missing", "walking %s, tx %d is confirmed in best-chain block %d (height %d) and was delivered, but is not reported", dir, id, b.id, b.height)
+			} else if reps[0].height != b.height || reps[0].hash != b.hash {
+				add("wrong-block", "walking %s, tx %d is confirmed in best-chain block %d (height %d) but reported %s", dir, id, b.id, b.height, where(reps[0]))
+			}
+		case b != nil:
+			if len(reps) == 1 {
+				add("wrong-block", "walking %s, tx %d is confirmed in best-chain block %d (height %d, outside the range) but reported %s", dir, id, b.id, b.height, where(reps[0]))
+			}
+		case all[id].coinbase:
+			if len(reps) == 1 {
+				add("wrong-block", "walking %s, coinbase tx %d is in no best-chain block but reported %s", dir, id, where(reps[0]))
+			}
+		default:
+			// delivered, in no best-chain block: unconfirmed
+			if len(reps) == 1 && reps[0].height != -1 {
+				add("wrong-block", "walking %s, tx %d is in no best-chain block but reported %s", dir, id, where(reps[0]))
+			} else if len(reps) == 0 && withUnmined {
+				add("missing", "walking %s, tx %d was delivered and is in no best-chain block: it should be reported as unmined, it is not reported", dir, id)
+			} else if len(reps) == 1 && !withUnmined {
+				add("wrong-block", "walking %s, unconfirmed tx %d is reported although the range does not include the mempool height", dir, id)
+			}
+		}
+	}
+	if n := len(reported[-1]); n > 0 {
+		add("wrong-block", "walking %s, %d reported transactions are not transactions of the wallet", dir, n)
+	}
+	return reply, strings.Join(v, "; ")
+}
+
 func (r *syncRunner) oracle1(ctx string) string {
 	if r.malformed || !r.env.running {
 		return ""
@@ -1224,6 +1409,8 @@ type syncGen struct {
 	running bool
 	tags    map[string]bool
 	nextKey int
+	forceN  int          // > 0: the next block gets exactly forceN-1 new wallet transactions (one-shot)
+	dense   bool         // blocks hold 1..3 wallet transactions more often than none (history queries over several blocks)
 	shallow bool         // only depth-1 reorgs whose fork height is not zero-marked (keeps clear of the zero-hash cascade)
 	zero    map[int]bool // heights whose remembered hash is all-zero if disconnectBlock has the quirk
 }
@@ -1247,6 +1434,12 @@ func (g *syncGen) newBlock(parent int, remine []txSpec) int {
 		n = 1
 	default:
 		n = 2
+	}
+	if g.dense {
+		n = []int{0, 1, 1, 2, 3}[g.rng.Intn(5)]
+	}
+	if g.forceN > 0 {
+		n, g.forceN = g.forceN-1, 0
 	}
 	for i := 0; i < n; i++ {
 		cb := g.rng.Intn(6) == 0 && i == 0 && len(remine) == 0
@@ -1466,6 +1659,33 @@ func (g *syncGen) finishRescan() {
 	total := atoi(kv["d"]) + len(core.CSV(kv["br"]))
 	g.ops[len(g.ops)-1] = fmt.Sprintf("%s rfin=%d", last, g.rng.Intn(total+1))
 	g.tags["rescan-finished-mid-reorg"] = true
+}
+
+// blockN extends the best chain by a block with exactly n new wallet transactions.
+func (g *syncGen) blockN(n int) {
+	g.forceN = n + 1
+	g.extend()
+}
+
+// getTxs asks for the wallet's transaction history over a height range: the whole chain in both directions with and
+// without the mempool, or a random sub-range in a random direction.
+func (g *syncGen) getTxs() {
+	tip := len(g.best) - 1
+	var from, to int
+	switch g.rng.Intn(8) {
+	case 0:
+		from, to = 0, -1
+	case 1:
+		from, to = -1, 0
+	case 2:
+		from, to = 0, tip
+	case 3:
+		from, to = tip, 0
+	default:
+		from, to = g.rng.Intn(tip+2)-1, g.rng.Intn(tip+3)-1
+	}
+	g.emit("gettxs from=%d to=%d", from, to)
+	g.tags["gettxs"] = true
 }
 
 // txBlock extends the best chain by a block that holds at least one wallet transaction.
@@ -1784,6 +2004,81 @@ func (syncEngine) Generate(rng *rand.Rand, tier string) []core.Case {
 			}
 		}
 		fin(g, "valid-evolution", "rescan-in-flight", "backend-reconnect")
+	}
+	// ---- wallet-level transaction history (C13; round-3 seed C13-6): Wallet.GetTransactions over ranges visiting
+	// several blocks with wallet transactions, forwards and backwards, with and without the mempool ----
+	hist := func(tag string, f func(g *syncGen)) {
+		g := mk(0)
+		f(g)
+		fin(g, "valid-evolution", "history-ranges", tag)
+	}
+	allRanges := func(g *syncGen) {
+		tip := len(g.best) - 1
+		for _, ft := range [][2]int{{0, -1}, {-1, 0}, {0, tip}, {tip, 0}, {1, tip - 1}, {tip - 1, 1}, {tip, tip}, {-1, -1}, {2, -1}, {-1, 2}} {
+			g.emit("gettxs from=%d to=%d", ft[0], ft[1])
+		}
+		g.tags["gettxs"] = true
+	}
+	// 2, 1, 1 wallet transactions in three consecutive blocks (a later block fits the array of an earlier one walking
+	// forwards), then 1, 2 (fits walking backwards only), empty blocks in between
+	hist("blocks-2-1-1", func(g *syncGen) {
+		chain(g, 1)
+		g.blockN(2)
+		g.blockN(1)
+		g.blockN(1)
+		g.blockN(0)
+		allRanges(g)
+	})
+	hist("blocks-1-2", func(g *syncGen) {
+		g.blockN(1)
+		g.blockN(0)
+		g.blockN(2)
+		g.blockN(0)
+		allRanges(g)
+	})
+	hist("blocks-1-1-unmined", func(g *syncGen) {
+		g.blockN(1)
+		g.blockN(1)
+		g.emit("mtx tx=%d", g.nextTx)
+		g.nextTx++
+		g.blockN(3)
+		g.blockN(2)
+		allRanges(g)
+	})
+	// the history after a reorg (transactions of the dropped blocks unconfirmed again or mined again) and after a restart
+	hist("reorg-restart", func(g *syncGen) {
+		g.blockN(2)
+		g.blockN(1)
+		g.blockN(2)
+		allRanges(g)
+		g.reorg(2, func(d int) int { return d + 1 })
+		allRanges(g)
+		g.emit("stop")
+		g.running = false
+		g.blockN(1)
+		g.emit("start recw=0")
+		g.running = true
+		allRanges(g)
+	})
+	nh := n / 3
+	if nh > 40 {
+		nh = 40
+	}
+	for i := 0; i < nh; i++ {
+		g := mk(0)
+		g.dense = true
+		for j := 0; j < steps/2; j++ {
+			switch x := rng.Intn(10); {
+			case x < 3 && len(g.best) > 2:
+				g.getTxs()
+			case x < 5:
+				g.extend()
+			default:
+				g.step(true, 0)
+			}
+		}
+		g.getTxs()
+		fin(g, "valid-evolution", "history-ranges")
 	}
 	if tier == "thorough" {
 		// one long chain crossing the MaxReorgDepth pruning window, with reorgs near the far edge
